@@ -44,7 +44,7 @@ func genDatasetValue(t *rapid.T, prev []float64) float64 {
 func checkDatasetQuery(t *rapid.T, d *dataset.Dataset, sorted []float64, q float64) {
 	n := len(sorted)
 	lo, hi, q2 := d.LowerQuantile(q), d.UpperQuantile(q), d.Quantile(q)
-	if n == 0 || q < 0 || q > 1 {
+	if n == 0 || !(q >= 0 && q <= 1) {
 		if !math.IsNaN(lo) || !math.IsNaN(hi) || !math.IsNaN(q2) {
 			t.Fatalf("C20: n=%d q=%v: want NaN, got lower=%v upper=%v quantile=%v", n, q, lo, hi, q2)
 		}
@@ -127,7 +127,9 @@ func TestC20(t *testing.T) {
 				}
 				return 0.5
 			case 2:
-				return rapid.SampledFrom([]float64{0, 1, -0.1, 1.1, -1e-300, math.Nextafter(1, 2), math.Inf(1), math.Inf(-1), 0.5}).Draw(t, "qspecial")
+				q := rapid.SampledFrom([]float64{0, 1, -0.1, 1.1, -1e-300, math.Nextafter(1, 2), math.Inf(1), math.Inf(-1), 0.5, math.NaN(), math.Copysign(0, -1)}).Draw(t, "qspecial")
+				cl.labelIf(math.IsNaN(q) && n > 0, "q:nan")
+				return q
 			default:
 				return rapid.Float64Range(0, 1).Draw(t, "q")
 			}
